@@ -540,6 +540,8 @@ where
                     value
                 }
                 Err(error) => {
+                    #[cfg(vrl_verif)]
+                    crate::compiler::verif::record_caught_error(&error.to_string());
                     ok.insert(default.clone(), ctx);
                     let value = Value::from(error.to_string());
                     err.insert(value.clone(), ctx);
@@ -816,6 +818,15 @@ impl DiagnosticMessage for Error {
             }
             _ => vec![],
         }
+    }
+}
+
+#[cfg(vrl_verif)]
+impl Assignment {
+    /// verification hook: the assignment variant (targets, expression, default value).
+    #[must_use]
+    pub(crate) fn verif_variant(&self) -> &Variant<Target, Expr> {
+        &self.variant
     }
 }
 
